@@ -53,7 +53,8 @@ def run(prop, tier, seed, t0):
                 raise vlib.ToolError("generated commented program rejected by the parser: %s" % json.dumps(m)[:500])
             if m["prop"] == prop:
                 # structural signature: container kind / wrapper / driver family / emptiness - not the concrete slots
-                if "i" not in c["src"] and m["obs"].endswith("became []"):
+                # an item-less container loses its own comments (texts "// cN"), and only those
+                if "i" not in c["src"] and m.get("got") == [w for w in m.get("want", []) if not w.startswith("// c")]:
                     sig = "%s comments in an item-less %s are dropped" % (prop, c["kind"])
                 else:
                     sig = "%s %s %s" % (prop, m["tag"], m["driver"].split()[0])
